@@ -15,6 +15,7 @@ CONSTANTS
   MaxDiscs = 0
   VerifyArgs <- VArgs
   Ticks = {0}
+  NarrowSels <- NoNarrow
   KeyFam <- Fam
 INVARIANTS Inv_C01 Inv_C02 Inv_C03 Inv_C04 Inv_C04args Inv_C09 Inv_Clean Inv_IssueRel Inv_PresentRel Inv_Round
 CHECK_DEADLOCK FALSE
